@@ -45,6 +45,9 @@ ISSUE_CODES = [
     (r"cannot find struct, variant or union type|use of undeclared type|not in scope|unresolved import", "type-not-in-scope"),
     (r"no variant named|cannot find struct `|undefined: msg\.|unknown type name", "unknown-type"),
     (r"contains itself", "sample-contains-itself"),
+    (r"used after it was moved", "used-after-move"),
+    (r"is not one of the match targets", "not-one-of-the-match-targets"),
+    (r"an instance of .* where .* is declared", "wrong-instance-type"),
     (r"declared and not used", "unused-variable"),
     (r"nothing on the right-hand side|without an argument", "empty-expression"),
     (r"does not implement Default|no function `default`", "no-default"),
@@ -56,6 +59,29 @@ ISSUE_CODES = [
     (r"test body is not|does not end with|header not recognised|prelude not recognised|import block not recognised|include block", "skeleton-not-recognised"),
     (r"fix-up", "fixup-shape"),
 ]
+
+# Known defects of the test emitters are structural: they need a particular shape of the packet tree a test instantiates
+# (feature, computed in Lean from the schema) and show up as one of several symptoms.  A failing test is attributed to a
+# cause only if its tree HAS the feature and the symptom is one that cause produces; otherwise the raw symptom is the signature.
+CAUSES = [
+    # (cause, required feature, symptom patterns over the model's cause string)
+    ("nested-computed-fixup", "nested-computed", r"mismatch/with-checksum-service/nested"),
+    ("nested-match-sample", "nested-match",
+     r"invalid/(type-not-in-scope|unknown-type|literal-type-mismatch|uses-undeclared-variable|used-after-move|member-named-twice|missing-member-in-literal|no-default)"
+     r"|decode-fails/nested-key|ill-typed/.*not-one-of-the-match|encode-fails"),
+    ("flat-local-names", "local-name-clash",
+     r"invalid/(local-declared-twice|sample-contains-itself|literal-type-mismatch|used-after-move|unused-variable|uses-undeclared-variable)"
+     r"|ill-typed/|mismatch/(always|with-checksum-service)/(nested|shared-instance)|decode-fails/"),
+    ("match-holder-by-value", "match-holder-by-value", r"invalid/(copies-noncopyable|used-after-move)"),
+]
+
+
+def attribute(cause, features):
+    for name, feat, pat in CAUSES:
+        if feat in features and re.search(pat, cause):
+            return "cause/" + name
+    return cause
+
 
 REAL_CODES = [
     (r"expected identifier, found keyword|expected unqualified-id|<identifier> expected", "identifier-is-keyword"),
@@ -376,6 +402,19 @@ def run_c17(ctx):
                     cause = cls + (("/" + code_of(r["emitted_" + mode].split(": ", 1)[-1], ISSUE_CODES)) if cls == "ill-typed" else "")
                     if cls == "mismatch":
                         cause += "/" + ("with-checksum-service" if (mode == "sum" and r["cls_none"] == "pass") else "always")
+                        # a computed member that differs at the top level = a missing fix-up / store-back; "(nested)" = inside a member
+                        d = r.get("diff_" + mode) or ""
+                        cause += "/" + ("top-level-computed" if "(computed)" in d else "nested" if "(nested)" in d else "unlocated")
+                    if cls == "decode-fails":
+                        cause += "/" + (r.get("why_" + mode) or "unexplained")
+                    if (cls == "pass" and mode == "sum" and T.get("shared") and tex["flags"].get("storeBack")
+                            and "nested-computed" in r.get("features", [])):
+                        # one instance stored in two places (the locals are references): it is encoded twice and the store-back of
+                        # the second encode overwrites the checksum the first one wrote — the tree-shaped model does not see it
+                        model, cause = "mismatch", "mismatch/with-checksum-service/shared-instance"
+                        what = "an instance of %s is stored in two places and holds computed members" % ", ".join(T["shared"])
+                if model != "pass" and r is not None:
+                    cause = attribute(cause, r.get("features", []))
                 if model != "pass" and model != "invalid" and codec_sigs:
                     # the codec of this output deviates from the declared wire format (C01-C06 territory): the failing test is a consequence
                     cause = "codec/" + codec_sigs[0]
@@ -407,6 +446,9 @@ def run_c17(ctx):
                             continue
                         if real_status == "error" and first_error(real_detail) in explained:
                             ctx.count("tests_not_built_because_of_another_test_in_the_same_unit")
+                            continue
+                        if real_status == "absent" and explained:
+                            ctx.count("tests_not_run_because_another_test_took_the_process_down")
                             continue
                     sig = "correspondence/%s/model-%s-real-%s" % (lang, model, real_status)
                     ctx.finding(sig, "%s %s [%s]: model says %s (%s), the real run says %s (%s)" % (lang, T["name"], mode, model, what[:120], real_status, real_detail[:160]),
